@@ -5,6 +5,15 @@ use vp::engine::*;
 #[global_allocator]
 static ALLOC: vp::alloc::Counting = vp::alloc::Counting;
 
+/// Properties whose cases are also run under the build without debug assertions.
+const UNCHECKED_TOO: &[&str] = &["C01", "C02", "C06", "C07", "C08", "C12", "C20"];
+
+fn unchecked_binary() -> Option<std::path::PathBuf> {
+    let exe = std::env::current_exe().ok()?;
+    let p = exe.parent()?.parent()?.join("unchecked").join("vp");
+    p.exists().then_some(p)
+}
+
 fn usage() -> ! {
     eprintln!("usage: vp <PROPERTY-ID> quick|thorough | vp <PROPERTY-ID> --replay <file>");
     std::process::exit(2)
@@ -58,6 +67,12 @@ fn main() {
             std::process::exit(2)
         });
         let phase = v["phase"].as_str().unwrap_or("").to_string();
+        if v["build"].as_str() == Some("unchecked") && build_tag() == "checked" {
+            if let Some(u) = unchecked_binary() {
+                let st = std::process::Command::new(u).args(&args).status();
+                std::process::exit(st.ok().and_then(|s| s.code()).unwrap_or(2));
+            }
+        }
         let mut acc = Acc::new();
         let r = if phase.starts_with("fuzz") { vp::fuzzrun::replay(&cx, &v["case"], &mut acc) } else { (def.replay)(&cx, &phase, &v["case"], &mut acc) };
         match r {
@@ -121,10 +136,43 @@ fn main() {
     acc.merge((def.run)(&cx));
     let (facc, fuzz_stats) = vp::fuzzrun::run(&cx);
     acc.merge(facc);
+    // The same cases under the build without debug assertions / overflow checks.
+    let mut child_exit = 0;
+    let mut child_lines: Vec<String> = Vec::new();
+    let mut unchecked_info = json!(null);
+    if UNCHECKED_TOO.contains(&id.as_str()) && build_tag() == "checked" && std::env::var_os("VP_CHILD").is_none() {
+        match unchecked_binary() {
+            None => acc.internal_errors.push("the unchecked build of the harness (target/unchecked/vp) is missing: run ./check or the setup command".into()),
+            Some(u) => {
+                let tmp = format!("{}/child-evidence-{}", std::env::temp_dir().display(), std::process::id());
+                let out = std::process::Command::new(u).arg(&id).arg(tier.name()).env("VP_CHILD", "1").env("VP_NO_FUZZ", "1").env("VP_EVIDENCE_DIR", &tmp).output();
+                match out {
+                    Err(e) => acc.internal_errors.push(format!("cannot run the unchecked build: {e}")),
+                    Ok(o) => {
+                        child_exit = o.status.code().unwrap_or(2);
+                        for l in String::from_utf8_lossy(&o.stdout).lines() {
+                            if l.starts_with("--- ") || l.starts_with("VIOLATION") || l.starts_with("INCONCLUSIVE") {
+                                child_lines.push(l.to_string());
+                            }
+                        }
+                        if let Ok(t) = std::fs::read_to_string(format!("{tmp}/{id}.json")) {
+                            if let Ok(ev) = serde_json::from_str::<Value>(&t) {
+                                let n = ev["coverage"]["evaluations"].as_u64().unwrap_or(0);
+                                unchecked_info = json!({"evaluations": n, "distinct_nontrivial": ev["coverage"]["distinct_nontrivial"], "violations": ev["violations"], "wall_s": ev["wall_s"], "exit": child_exit});
+                                acc.phase_info("unchecked-build", n, false, "all phases above repeated with http-serve and harness built without debug assertions and overflow checks (release semantics)");
+                                acc.evals += n;
+                            }
+                        }
+                        let _ = std::fs::remove_dir_all(&tmp);
+                    }
+                }
+            }
+        }
+    }
     let wall = start.elapsed().as_secs_f64();
 
     let health = (def.health)(&acc);
-    let extra = json!({"corpus_cases": corpus_n, "internal_errors": acc.internal_errors, "health": health, "fuzz": fuzz_stats});
+    let extra = json!({"corpus_cases": corpus_n, "internal_errors": acc.internal_errors, "health": health, "fuzz": fuzz_stats, "build": build_tag(), "unchecked_build": unchecked_info});
     write_evidence(&cx, def.meta, &acc, wall, extra);
 
     println!(
@@ -142,7 +190,14 @@ fn main() {
             println!("KNOWN-FINDING: property={id} sig={} hits={n} {}", k.sig, k.text);
         }
     }
-    if !acc.violations.is_empty() {
+    for l in &child_lines {
+        if l.starts_with("INCONCLUSIVE") {
+            println!("{l} [unchecked build]");
+        } else {
+            println!("{l}");
+        }
+    }
+    if !acc.violations.is_empty() || child_exit == 1 {
         for v in &acc.violations {
             let path = write_replay(&id, v);
             println!("--- {} [{}] {}", v.phase, v.sig, v.msg);
@@ -150,7 +205,7 @@ fn main() {
         }
         std::process::exit(1);
     }
-    if !acc.internal_errors.is_empty() {
+    if !acc.internal_errors.is_empty() || child_exit >= 2 {
         for e in &acc.internal_errors {
             println!("INCONCLUSIVE: {e}");
         }
